@@ -16,6 +16,7 @@ import (
 	"os"
 	"os/exec"
 	"path/filepath"
+	"regexp"
 	"sort"
 	"strings"
 	"testing"
@@ -54,7 +55,7 @@ func (g *gen) marker(ty string) string {
 		g.stdin++
 		g.n++
 		// a stdin read is a side effect, too: line k must be consumed by the k-th read
-		return fmt.Sprintf(`mk(%d, <>.next)`, g.n)
+		return fmt.Sprintf(`mk(%d, <>.S)`, g.n)
 	}
 	g.n++
 	var v string
@@ -651,17 +652,134 @@ func TestReproducibilityCorpus(t *testing.T) {
 	}
 }
 
+// ---- stdin reads: the k-th read evaluated (in source order) consumes line k ----
+
+type ReadCase struct {
+	Src   string `json:"src"`
+	Reads int    `json:"reads"`
+	Got   string `json:"got,omitempty"`
+}
+
+var lineNo = regexp.MustCompile(`(?i)ln([0-9]+)x`)
+
+func judgeReads(c *ReadCase, reps int) (sig, detail string) {
+	stdin := ""
+	for i := 0; i < c.Reads+3; i++ {
+		stdin += fmt.Sprintf("ln%dx\n", i+1)
+	}
+	want := []string{}
+	for i := 1; i <= c.Reads; i++ {
+		want = append(want, fmt.Sprint(i))
+	}
+	for r := 0; r < reps; r++ {
+		o := interp.Shared().Run("pair := {|a, b| [a, b]}\n"+c.Src, interp.Opts{Stdin: stdin})
+		if o.Kind == interp.HostPanic {
+			return "reads:host-panic", c.Src + " : " + o.Show()
+		}
+		if o.Kind != interp.Value {
+			return "harness:read-program-does-not-evaluate", c.Src + " : " + o.Show()
+		}
+		got := []string{}
+		for _, m := range lineNo.FindAllStringSubmatch(interp.SafeInspect(o.Obj), -1) {
+			got = append(got, m[1])
+		}
+		c.Got = strings.Join(got, " ")
+		if c.Got != strings.Join(want, " ") {
+			return "reads:lines-not-consumed-in-source-order", fmt.Sprintf("%s\nwith stdin ln1x, ln2x, ...: the reads (in source order) received lines [%s], want [%s]; value %s", c.Src, c.Got, strings.Join(want, " "), interp.SafeInspect(o.Obj))
+		}
+	}
+	return "", ""
+}
+
+// genReads builds statements whose sub-expressions read stdin in every available way; iterators over stdin are
+// created earlier than they are used, and direct reads happen in between.
+func genReads(t *rapid.T) ReadCase {
+	c := ReadCase{}
+	iters := []string{}
+	stmts, results := []string{}, []string{}
+	var read func() string
+	read = func() string {
+		c.Reads++
+		forms := []string{"<>.S", "<>.uc", "<>.lc", "<>.first", "<>._iter.next", "<>.S.S", "<>.try.val.S", "{|| <>.S}()", "[<>.S][0]", "<>.S.uc.lc"}
+		if len(iters) > 0 && rapid.IntRange(0, 2).Draw(t, "via iterator") == 0 {
+			return rapid.SampledFrom(iters).Draw(t, "iter") + ".next"
+		}
+		return rapid.SampledFrom(forms).Draw(t, "read form")
+	}
+	n := rapid.IntRange(2, 7).Draw(t, "statements")
+	for i := 0; i < n; i++ {
+		switch rapid.IntRange(0, 7).Draw(t, "stmt") {
+		case 0:
+			// an iterator over stdin is made now and used later: making it consumes nothing
+			name := fmt.Sprintf("it%d", len(iters))
+			stmts = append(stmts, name+" := "+rapid.SampledFrom([]string{"<>._iter", "<>._iter._iter", "{|| <>._iter}()"}).Draw(t, "iter form"))
+			iters = append(iters, name)
+			continue
+		case 1:
+			stmts = append(stmts, fmt.Sprintf("r%d := [%s, %s, %s]", i, read(), read(), read()))
+		case 2:
+			a, b := read(), read()
+			for strings.Contains(a+b, "{") { // braces cannot appear inside an interpolated part
+				c.Reads -= 2
+				a, b = read(), read()
+			}
+			if rapid.Bool().Draw(t, "bare part") {
+				a = "<>" // a bare part is read when it is converted to text
+			}
+			stmts = append(stmts, fmt.Sprintf("r%d := \"#{%s}-#{%s}\"", i, a, b))
+		case 3:
+			stmts = append(stmts, fmt.Sprintf("r%d := pair(%s, %s)", i, read(), read()))
+		case 4:
+			stmts = append(stmts, fmt.Sprintf("r%d := %s.S + \"|\" + %s.S", i, read(), read()))
+		case 5:
+			stmts = append(stmts, fmt.Sprintf("r%d := {a: %s, b: %s}.values", i, read(), read()))
+		case 6:
+			x := read()
+			for strings.Contains(x, "{") {
+				c.Reads--
+				x = read()
+			}
+			stmts = append(stmts, fmt.Sprintf("r%d := \"#{<>}#{<>}#{%s}\"", i, x))
+			c.Reads += 2
+			// the two bare parts come first in source order: renumbering is not needed, every read is anonymous
+		default:
+			stmts = append(stmts, fmt.Sprintf("r%d := %s", i, read()))
+		}
+		results = append(results, fmt.Sprintf("r%d", i))
+	}
+	c.Src = strings.Join(stmts, "\n") + "\n[" + strings.Join(results, ", ") + "]"
+	return c
+}
+
+func TestStdinReadOrder(t *testing.T) {
+	vt.Check(t, vt.N(1500, 100000), func(rt *rapid.T) {
+		c := genReads(rt)
+		vt.Eval()
+		vt.Class("stdin read order")
+		if c.Reads >= 3 {
+			vt.NonTrivial(c.Src, func() any { return c.Src })
+		}
+		if sig, detail := judgeReads(&c, 2); sig != "" {
+			vt.Fail(rt, sig, detail, map[string]any{"reads": c})
+		}
+	})
+}
+
 func TestReplay(t *testing.T) {
 	vt.RunReplays(t, func(data json.RawMessage) (string, string) {
 		var c struct {
 			Order *OrderCase `json:"order"`
 			Repro *ReproCase `json:"repro"`
+			Reads *ReadCase  `json:"reads"`
 		}
 		if err := json.Unmarshal(data, &c); err != nil {
 			panic(err)
 		}
 		if c.Order != nil {
 			return judgeOrder(c.Order, 64)
+		}
+		if c.Reads != nil {
+			return judgeReads(c.Reads, 4)
 		}
 		sig, detail := "", ""
 		err := judgeRepro([]ReproCase{*c.Repro}, 32, 6, func(s, d string, _ ReproCase) { sig, detail = s, d })
